@@ -144,7 +144,7 @@ def run(check, an: Analysis):
                 and an.p.find_method(t[1], '__enter__') and an.p.find_method(t[1], '__exit__')}
     for fn, stmt, target, recvs in rules.attribute_stores(an, 'loop', HANDLER):
         ok = fn.cls is not None and (
-            (fn.cls.qn == HANDLER and fn.name in ('__init__', 'assign'))
+            (rules.owned_by(an, fn, HANDLER) and fn.name in ('__init__', 'assign'))
             or (fn.cls.qn in managers and fn.name in ('__enter__', '__exit__')))
         check.instance('X', 'loop-writer:%s' % short(fn.qn), ok,
                        '%s:%d' % (fn.module.relpath, stmt.lineno),
